@@ -3,7 +3,7 @@
      def   ::= <keyhex> <namehex | ~> <nparams> <paramhex>* <expr>
      expr  ::= L <value> | V <hex> | A <hex> <expr> | F <d> | C <expr> <n> <expr>* | R <n> <expr>*
              | B <add|sub|lt> <expr> <expr> | I <expr> <expr> <expr> | S <expr> <expr> | P <n> <expr>*
-             | G <hex> | E <hex> | X <r|t> | D <hex>
+             | G <hex> | E <hex> | X <r|t> | D <hex> | K <expr>      (K e = catch(e).err; a last parameter 2e2e = ".." makes a definition variadic)
      value ::= i<z> | fz | fm | fn | fw<z> | fh<z> | s<hex> | bt | bf | n | a<n> <value>*
    out :  <id> K=<closed_hist> <seg>|<seg>...   one segment per input:
             R=<V:hexinspect | E | F> O=<hex out> L=<hex log> N=<cache entries> S=<new entries, sorted, comma separated | ->
@@ -50,6 +50,7 @@ let rec p_expr () : expr =
   | "E" -> EError (bytes_of_hex (next ()))
   | "X" -> EExt (match next () with "r" -> XRand1 | "t" -> XTimePos | t -> raise (Parse t))
   | "D" -> EDel (bytes_of_hex (next ()))
+  | "K" -> ECatchErr (p_expr ())
   | t -> raise (Parse t)
 
 let p_def () : fdef =
